@@ -272,6 +272,21 @@ func ruleRSComplete(p *Prog, r *Reporter) {
 		for _, fs := range fieldStoresVia(m, m.Params[0]) {
 			stored[fs.field] = append(stored[fs.field], m.Name())
 		}
+		// a map held in a field and filled by a method is request state just as well (a "seen" set,
+		// a memo): an entry written through the field counts as a store to it
+		for _, b := range m.Blocks {
+			for _, in := range b.Instrs {
+				mu, ok := in.(*ssa.MapUpdate)
+				if !ok {
+					continue
+				}
+				if ld, isLd := mu.Map.(*ssa.UnOp); isLd && ld.Op == token.MUL {
+					if fa, isFA := ld.X.(*ssa.FieldAddr); isFA && aliasOfParam(fa.X, m.Params[0]) {
+						stored[fieldName(fa)] = append(stored[fieldName(fa)], m.Name())
+					}
+				}
+			}
+		}
 	}
 	var fields []string
 	for f := range stored {
